@@ -277,6 +277,32 @@ func partB(c *core.Ctx, ag *agg) {
 			}
 		}
 	}
+	// backlog: a long run of rate-limited writes (up to ~1 MB queued) with or without a flush in the middle and with
+	// a final write that is or is not limited: whatever the queue does when it grows, the socket gets every byte once
+	for n := 4; n <= 16; n += 2 {
+		for _, size := range []int{9000, 66000} {
+			for variant := 0; variant < 4; variant++ {
+				cs := caseB{Part: "b", Sizes: make([]int, n), Limited: make([]bool, n), FlushAfter: make([]bool, n)}
+				for i := 0; i < n; i++ {
+					cs.Sizes[i] = size + i // all different
+					cs.Limited[i] = true
+				}
+				if variant&1 != 0 {
+					cs.FlushAfter[n/2] = true
+				}
+				if variant&2 != 0 {
+					cs.Limited[n-1] = false
+				}
+				o := execB(cs)
+				ord++
+				largeCases++
+				calls += int64(o.calls)
+				if !o.v.ok() {
+					ag.add("write-backlog:"+o.v.Kind+":"+o.v.Shape, o.v.What, ord, func() interface{} { return cs })
+				}
+			}
+		}
+	}
 	c.Add("cases_write_large", largeCases)
 	c.Add("cases_write", cases)
 	c.Add("adapter_calls", calls)
